@@ -460,7 +460,7 @@ class Client(Peer):
         if not self.connected:
             if self.start_turn == 'idle':
                 # connect once everything before us has gone quiet
-                ok = self.w.idle_turns >= 2 and all(
+                ok = (self.w.calm_turns >= 2 or self.w.idle_turns >= 2) and all(
                     c.connected and (c.done() or c.step_enabled() is None)
                     for c in self.w.clients[:self.idx])
                 return ('connect',) if ok else None
@@ -479,7 +479,7 @@ class Client(Peer):
                     continue
                 return None
             if k == 'wait_idle':
-                if self.w.idle_turns >= 2:
+                if self.w.calm_turns >= 2 or self.w.idle_turns >= 2:
                     self.pc += 1
                     continue
                 return None
@@ -724,6 +724,10 @@ class WorldImpl(World):
         self.now = 1000.0
         self.in_env = False
         self.idle_turns = 0
+        self.calm_turns = 0        # turns in which neither a peer nor the SUT did any I/O (the loop may still spin)
+        self.activity_mark = 0
+        self.progress = 0
+        self.progress_mark = 0
         self.activity = 0          # bumped by any env action / SUT io
         self.all_socks = []
         self.sut_roles = {}        # inode -> role name
@@ -753,6 +757,7 @@ class WorldImpl(World):
     def log(self, actor, op, detail=None):
         self.trace.append((self.turn, actor, op, detail))
         self.activity += 1
+        self.progress += 1      # real events only (pending / postponed actions bump `activity`, not this)
 
     def choose(self, kind, n, meta=None):
         i = len(self.choices)
@@ -1024,8 +1029,17 @@ class WorldImpl(World):
                 raise KeyboardInterrupt()
         self.turn += 1
         self.turn_time[self.turn] = self.now
+        sut_acted = self.progress != self.progress_mark      # SUT-side I/O since the previous select()
         a0 = self.activity
+        p0 = self.progress
         self.env_turn()
+        # "calm": nobody moved a byte or opened / closed anything.  A loop that keeps being woken (e.g. by a
+        # half-dead descriptor it neither reads nor closes) without doing I/O is calm, although never idle;
+        # peers that wait for the proxy to finish reacting ('wait_idle', start 'idle') go by calm turns.
+        if sut_acted or self.progress != p0:
+            self.calm_turns = 0
+        else:
+            self.calm_turns += 1
         ready = selector._real.select(0)
         ready.sort(key=lambda kv: kv[0].fd)
         if len(ready) > 1 and 'E' in self.kinds:
@@ -1065,6 +1079,7 @@ class WorldImpl(World):
                 self.stop_raised += 1
                 raise KeyboardInterrupt()
         self.activity_mark = self.activity
+        self.progress_mark = self.progress
         return ready
 
     # ---- run
